@@ -138,7 +138,10 @@ class Runner:
                                    # have discarded their state and then ignores frames; an over-limit frame is not required to close
         self.local_open = set()
         self.sent_crypto = False
-        self.extra_allow = 0
+        self.sent_stream = False
+        self.sent_reset = False
+        self.multi_addr = False
+        self.crypto_next = self.crypto_base
         self.measure = measure
         self.baseline = reachable_bytes(self.sub.conn) if measure else 0
         self.max_growth = 0
@@ -290,11 +293,12 @@ class Runner:
             return
         g = reachable_bytes(self.sub.conn) - self.baseline
         self.max_growth = max(self.max_growth, g)
-        allow = self.adv_data + (self.max_pending_crypto if self.sent_crypto else 0) + self.extra_allow + SLACK
+        allow = ((self.adv_data if self.sent_stream else 0) + (self.max_pending_crypto if self.sent_crypto else 0) + SLACK)
         if g > allow:
-            self._fail("bytes reachable from the connection grew by %d, more than advertised max_data %d%s + slack %d"
-                       % (g, self.adv_data, " + MAX_PENDING_CRYPTO" if self.sent_crypto else "", SLACK),
-                       oracle="buffer_bound", kind=self.case.get("kind", "generic"))
+            self._fail("bytes reachable from the connection grew by %d, more than %s%sslack %d"
+                       % (g, "advertised max_data %d + " % self.adv_data if self.sent_stream else "",
+                          "MAX_PENDING_CRYPTO %d + " % self.max_pending_crypto if self.sent_crypto else "", SLACK),
+                       oracle="buffer_bound", crypto=self.sent_crypto, multi_addr=self.multi_addr, streams=self.sent_stream)
 
     # -- one packet from the puppet -------------------------------------------------------
     def _frame_bytes(self, fr):
@@ -306,10 +310,21 @@ class Runner:
             ft = 0x08 | (4 if with_off else 0) | 2 | (1 if fin else 0)
             d = _data(n, seed)
             self.min_in += [0, ft, sid, off, n] + list(d)
+            self.sent_stream = True
             return F.stream(sid, off, d, fin=bool(fin), explicit_len=True, explicit_offset=with_off)
         if k == "R":
             self.min_in += [1, fr[1], fr[2]]
+            self.sent_stream = True
+            self._reset_after = True
             return F.reset_stream(fr[1], 7, fr[2])
+        if k == "Ct":      # in-order CRYPTO: a TLS handshake message header announcing 2^24-1 bytes, then its body
+            n = fr[1]
+            d = (bytes([4, 0xFF, 0xFF, 0xFF]) + bytes(n))[:n] if self.crypto_next == self.crypto_base else bytes(n)
+            off = self.crypto_next
+            self.crypto_next += n
+            self.min_in += [7, off, n] + list(d)
+            self.sent_crypto = True
+            return F.crypto(off, d)
         if k == "T":
             self.min_in += [2, fr[1], fr[2]]
             return F.max_stream_data(fr[2], 1) if fr[1] == 0x11 else F.stream_data_blocked(fr[2], 1)
@@ -344,6 +359,9 @@ class Runner:
         self.stats["packets"] += 1
         self.stats["frames"] += len(frames)
         self._events()
+        had_reset = self.sent_reset
+        if getattr(self, "_reset_after", False):
+            self.sent_reset = True
         if not write:
             return
         first_bad = next((e for e in expects if e[0]), None)
@@ -359,9 +377,11 @@ class Runner:
                                % (sorted(first_bad[0]), "connection stayed open" if code is None else "closed with %s" % code),
                                oracle="over_limit", expected=sorted(first_bad[0])[0], got=code)
             elif all(e[1] for e in expects) and code in ACCUSE:
+                nres = sum(1 for fr in frames if fr[0] == "R")
+                self.sent_reset = had_reset or nres >= (2 if self.closed[1] == 4 else 1)
                 self._fail("peer within every advertised limit and final-size consistent was accused: %s, frame type 0x%x"
                            % (ACCUSE[code], self.closed[1]), oracle="accused", code=ACCUSE[code],
-                           frame=("RESET_STREAM" if self.closed[1] == 4 else "STREAM"))
+                           after_reset=self.sent_reset)
 
     # -- declare the latest packet carrying MAX_* frames lost --------------------------------
     def _lose(self):
@@ -427,9 +447,16 @@ class Runner:
                     self.min_in += [3, op[1]]
                 elif k == "L":
                     self._lose()
+                elif k == "Pa":    # PATH_CHALLENGE frames from another source address (a path the model does not have)
+                    self.multi_addr = True
+                    data = self.pup.build_packet("1rtt", [self.F.path_challenge(bytes([op[1] & 0xFF]) * 8)] * op[2])
+                    self.sub.receive_datagram(data, ("10.9.%d.%d" % (op[1] // 250, op[1] % 250 + 1), 4000 + op[1]))
+                    self.stats["packets"] += 1
+                    self._events()
+                    self._write()
                 else:
                     self._packet([op])
-                if op is not self.case["ops"][-1] and self.stats["packets"] % 8 == 0:
+                if op is not self.case["ops"][-1] and self.stats["packets"] % (8 if len(self.case["ops"]) < 100 else 96) == 0:
                     self._measure()
         except Closed:
             pass
@@ -650,6 +677,36 @@ def gen_repetition(rng, thorough=False):
     return cases
 
 
+def gen_lost_limits():
+    cases = []
+    for subject in ("server", "client"):
+        pb, pu, ob, ou = _peer_sids(subject)
+        cases.append(_case(subject, 1000, 4000, [["S", pb, 0, 600, 1, 0, 0], ["L"], ["S", pb, 1990, 10, 1, 0, 1], ["S", pb, 2000, 1, 1, 0, 1]],
+                           kind="lost-max-stream-data"))
+        cases.append(_case(subject, 3000, 2000, [["S", pb, 0, 1001, 1, 0, 0], ["L"], ["S", pb, 1001, 1000, 1, 0, 1], ["L"],
+                                                 ["S", pu, 0, 10, 1, 0, 0], ["S", pb, 3999, 2, 1, 0, 1]], kind="lost-max-data"))
+        cases.append(_case(subject, 1000, 4000, [["S", pu + 4 * 64, 0, 1, 1, 0, 0], ["L"], ["S", pu + 4 * 255, 0, 1, 1, 0, 0], ["L"],
+                                                 ["S", pu + 4 * 256, 0, 1, 1, 0, 0]], kind="lost-max-streams"))
+    return cases
+
+
+def gen_findings(thorough=False):
+    """Inputs on which the unchanged tree violates the property (documented in docs/C07.md)."""
+    cases = []
+    for subject in (("server", "client") if thorough else ("server",)):
+        pb, pu, ob, ou = _peer_sids(subject)
+        # F-C07-1: RESET_STREAM charges the connection window without moving highest_offset
+        cases.append(_case(subject, 4000, 4000, [["R", pb, 100], ["R", pb, 100], ["R", pb + 4, 3900]], kind="finding-reset-double-count"))
+        cases.append(_case(subject, 4000, 4000, [["R", pb, 100], ["S", pb, 0, 100, 1, 0, 0], ["S", pb + 4, 3890, 10, 1, 0, 1]],
+                           kind="finding-reset-double-count"))
+        cases.append(_case(subject, 3000, 4000, [["B", [["R", pb, 2500], ["S", pb, 2400, 100, 1, 0, 1]]]], kind="finding-reset-double-count"))
+        # F-C07-2: in-order CRYPTO data is buffered by the TLS layer up to the announced message length (2^24-1)
+        cases.append(_case(subject, 1000, 4000, [["Ct", 1150]] * 470, kind="finding-tls-reassembly"))
+        # F-C07-3: one remote_challenges queue per source address, the number of paths is not bounded
+        cases.append(_case(subject, 1000, 4000, [["Pa", i, 32] for i in range(60)], kind="finding-paths"))
+    return cases
+
+
 # ------------------------------------------------------------------------------ driver
 def _ops(c):
     return c["ops"]
@@ -683,6 +740,12 @@ def suite(ctx):
                       nontrivial=_nontrivial, opname=_opname, simplify=_simplify)
 
 
+def suite_long(ctx):
+    """same tie, for the long repetition cases: no shrinking (one evaluation costs a second)"""
+    return corr.Suite(ctx, "connlimits-long", "exec_connlimits", encode, impl, oracle, None, None,
+                      nontrivial=_nontrivial, opname=_opname)
+
+
 def run(ctx):
     import resource
     try:   # the C10 receiver model zero-fills gaps with a non-tail-recursive list function: deep stack for the driver
@@ -691,13 +754,19 @@ def run(ctx):
     except Exception:
         pass
     s = suite(ctx)
+    sl = suite_long(ctx)
     s.run(corr.load_corpus("C07", s.name), "corpus")
     rng = ctx.rng
-    cases = gen_boundary() + gen_final_size() + gen_repetition(rng, ctx.thorough)
+    cases = gen_boundary() + gen_final_size() + gen_repetition(rng, ctx.thorough) + gen_lost_limits()
     s.run(cases)
     s.run(gen_random(rng, ctx.n(120, 3000)))
+    found = gen_findings(ctx.thorough)
+    for kind in ("finding-reset-double-count",):
+        s.run([c for c in found if c["kind"] == kind])
+    for kind in ("finding-tls-reassembly", "finding-paths"):
+        sl.run([c for c in found if c["kind"] == kind])
     return corr.merge_coverage(
-        [s],
+        [s, sl],
         "puppet-driven frame sequences on a real QuicConnection after a real handshake (boundary tables on all four stream types "
         "and both roles, final-size interplay, stream-count, repetition of PATH_CHALLENGE / NEW_CONNECTION_ID / CRYPTO, never-completed "
         "streams, random mostly-within-limit histories interleaved with the subject's own limit raises); distinct = distinct projected "
